@@ -61,6 +61,15 @@ theorem NonNeg.tail {s : Seg} {rest : List Seg} (h : NonNeg (s :: rest)) : NonNe
 theorem NonNeg.head {s : Seg} {rest : List Seg} (h : NonNeg (s :: rest)) (l : Int)
     (hl : s.len = some l) : 0 ≤ l := h s (List.mem_cons_self) l hl
 
+/-- A decidable sufficient test for `NonNeg` (used by the non-vacuity examples). -/
+theorem nonNeg_of_all (segs : List Seg)
+    (h : segs.all (fun s => match s.len with | none => true | some l => decide (0 ≤ l)) = true) :
+    NonNeg segs := by
+  intro s hs l hl
+  have := List.all_eq_true.mp h s hs
+  simp only [hl, decide_eq_true_eq] at this
+  exact this
+
 /-! ### ActiveAt -/
 
 /-- The loop only depends on `d - cur`; `cur` and `i` are carried along additively. -/
